@@ -557,7 +557,14 @@ def m_int_new(it, args, kw):
 def m_str_new(it, args, kw):
     if len(args) == 1:
         return ""
-    return args[1]
+    v = args[1]
+    cls = args[0]
+    if cls is not str and isinstance(v, (str, SStr)):
+        # instance of a str subclass (PackURI ...): same characters, attribute lookup goes through the subclass
+        r = SStr([v])
+        r.pycls = cls
+        return r
+    return v
 
 
 @model(object.__new__)
